@@ -47,7 +47,7 @@ __CPROVER_loop_invariant((index2_iter->m->gpos >= 0 && index2_iter->m_outer == i
 __CPROVER_decreases(index2_iter->m_end - index2_iter->m_id)
 //@end
 
-//@harness h_chaseIndices enforce=chaseIndices props=C02,C17 min_obl=2669 reach=1
+//@harness h_chaseIndices enforce=chaseIndices replay=sparsewalk:chase props=C02,C17 min_obl=2669 reach=1
 void h_chaseIndices(void)
 {
   SpIt *a, *b;
